@@ -13,7 +13,8 @@ def plans(tier):
         return [dict(gens="star,hole,collapse,rect", variants="base", n=650, W=8, nmax=12, bias=0.5, seed=s),
                 dict(gens="star,hole", variants="base", n=300, W=10, nmax=10, bias=0.4, seed=s + 1),
                 dict(gens="collapse", variants="base", n=300, W=16, nmax=10, bias=0.4, seed=s + 2),
-                dict(gens="spiral", variants="base", n=60, W=8, nmax=10, bias=0.4, seed=s + 4)]
+                dict(gens="spiral", variants="base", n=60, W=8, nmax=10, bias=0.4, seed=s + 4),
+                dict(gens="star,hole", variants="base", n=4000, W=3, nmax=20, bias=0.9, seed=s + 5)]     # dense: nearly every pixel of the window occupied
     return [dict(gens="star,hole,collapse,rect", variants="base", n=16000, W=8, nmax=16, bias=0.5, seed=s),
             dict(gens="star,hole", variants="base", n=6000, W=10, nmax=12, bias=0.4, seed=s + 1),
             dict(gens="collapse,hole", variants="base", n=6000, W=6, nmax=12, bias=0.7, seed=s + 2),
@@ -28,7 +29,7 @@ def run(tier):
              "an input vertex's pixel; end points and mid point of every output edge within half a pixel (Chebyshev, exact closed-box test) "
              "of the input boundary; every pixel centre and corner of the window +-2 pixels farther than one pixel from the input boundary "
              "is covered by the output iff covered by the input",
-        min_valid_frac=0.3, classify=classify)
+        min_valid_frac=0.15, classify=classify)
 
 
 def classify(inv, rec, grp):
